@@ -7,19 +7,123 @@
   strength (`…_full cfg : Prop`), a kernel-checked counter-example for `Cfg.asIs`, a partial theorem for
   `Cfg.asIs` with the excluded domain explicit, and the full theorem for `Cfg.repaired`.
 
-  Not proved here, and not provable in Lean: that the emitted text type-checks.  That is observed with
-  go/types on every correspondence case (see checklib/propdefs/C17.py).
+  Not proved here, and not provable in Lean: that the emitted text type-checks (template bodies are not
+  modelled).  That is observed with go/types on every correspondence case (see checklib/propdefs/C17.py).
+  What "compiles" means at the level of the model is stated in full: declared names are pairwise distinct
+  (`idents_unique_*`, `declaredNames_covers`), every name is a well-formed Go identifier (`names_wellformed`),
+  exported or private as documented (`exported_names`), the import list is duplicate-free and is exactly what
+  the emitted sections use (`imports_exact_*`, `dot_imports_exact`, `imports_nodup`).
 -/
 import RV.Model.Gen
 import RV.Proofs.Gen
 namespace RV.C17
 open RV RV.Dict RV.Gen RV.Gen.Spec
 
-/-! ### deterministic: the output is a function of the dictionary and the options -/
+/-! ### deterministic: the output does not depend on the order in which Go iterates its maps -/
 
+/-- A TRIVIALITY, kept for its name only: `generate` is a Lean function, so two evaluations agree; this
+    says nothing about the Go code.  In Go the run-to-run variation comes from MAP ITERATION ORDER; the
+    maps of `Generate` are `ExternalAttributes` (iterated, then `sortExternalAttributes`), `baseImports`
+    (iterated, then sorted by go/format), `ignoredAttributes`, `attrIdents`, `vendorIdents` (looked up only).
+    The statements with content are `refs_order_irrelevant` and `ignore_order_irrelevant` below (the model
+    takes the two option maps as lists; the result is invariant under every re-ordering of them), and
+    `std_imports_canonical` (the `baseImports` map is emitted in one fixed order). -/
 theorem deterministic (cfg : Cfg) (d : Dictionary) (o : Options) (r₁ r₂ : Except Err Output)
     (h₁ : generate cfg d o = r₁) (h₂ : generate cfg d o = r₂) : r₁ = r₂ := by
   rw [← h₁, ← h₂]
+
+/-- `ExternalAttributes` (the `-ref` options) is a Go map: its keys are distinct and it is iterated in an
+    arbitrary order.  Whatever that order is, the result is the same — for the code as found, the repaired
+    code and the working tree alike (`cfg` is arbitrary): `sortExternalAttributes` orders the slice by a
+    key that is unique. -/
+theorem refs_order_irrelevant (cfg : Cfg) (d : Dictionary) (o : Options) (refs' : List (Bytes × Bytes))
+    (h : o.refs.Perm refs') (hd : (o.refs.map (·.1)).Nodup) :
+    generate cfg d { o with refs := refs' } = generate cfg d o :=
+  Gen.refs_order_irrelevant' cfg d o refs' h hd
+
+/-- the ignore list is turned into a map and only ever looked up: order and repetitions do not matter -/
+theorem ignore_order_irrelevant (cfg : Cfg) (d : Dictionary) (o : Options) (ignore' : List Bytes)
+    (h : ∀ n, n ∈ o.ignore ↔ n ∈ ignore') :
+    generate cfg d { o with ignore := ignore' } = generate cfg d o :=
+  Gen.ignore_order_irrelevant' cfg d o ignore' h
+
+/-- both at once, for the working tree -/
+theorem options_order_irrelevant (d : Dictionary) (o o' : Options)
+    (hr : o.refs.Perm o'.refs) (hd : (o.refs.map (·.1)).Nodup) (hi : ∀ n, n ∈ o.ignore ↔ n ∈ o'.ignore) :
+    generate Cfg.current d o' = generate Cfg.current d o := by
+  have h1 := refs_order_irrelevant Cfg.current d o o'.refs hr hd
+  have h2 := ignore_order_irrelevant Cfg.current d { o with refs := o'.refs } o'.ignore hi
+  exact h2.trans h1
+
+/-- the standard-library imports (the `baseImports` map) come out in one fixed order, whatever was
+    inserted first: they are a sub-list of the sorted list `stdImports` -/
+theorem std_imports_canonical (cfg : Cfg) (d : Dictionary) (o : Options) (out : Output)
+    (h : generate cfg d o = .ok out) :
+    (out.imports.filter (fun i => match i with | .std _ => true | _ => false)).Sublist stdImports :=
+  Gen.std_imports_canonical' h
+
+/-- two `-ref` options, an ignore list with a repetition -/
+def witnessRefs : Dictionary :=
+  { attributes := [{ name := bs "A", oid := [1], typ := .string }, { name := bs "Old", oid := [2], typ := .string }],
+    values := [⟨bs "X", bs "on", 1⟩, ⟨bs "Y", bs "off", 0⟩] }
+
+example : generate Cfg.current witnessRefs ⟨[bs "Old"], [(bs "Y", bs "q"), (bs "X", bs "p")]⟩
+    = generate Cfg.current witnessRefs ⟨[bs "Old"], [(bs "X", bs "p"), (bs "Y", bs "q")]⟩ :=
+  refs_order_irrelevant Cfg.current witnessRefs ⟨[bs "Old"], [(bs "X", bs "p"), (bs "Y", bs "q")]⟩ _
+    (List.Perm.swap _ _ _) (by decide)
+
+example : generate Cfg.current witnessRefs ⟨[bs "Old", bs "Old", bs "Old"], [(bs "X", bs "p"), (bs "Y", bs "q")]⟩
+    = generate Cfg.current witnessRefs ⟨[bs "Old"], [(bs "X", bs "p"), (bs "Y", bs "q")]⟩ :=
+  ignore_order_irrelevant Cfg.current witnessRefs ⟨[bs "Old"], [(bs "X", bs "p"), (bs "Y", bs "q")]⟩ _ (by simp)
+
+/-- the run the two examples are about succeeds and emits both external sections -/
+example : (match generate Cfg.current witnessRefs ⟨[bs "Old"], [(bs "X", bs "p"), (bs "Y", bs "q")]⟩ with
+    | .ok out => out.imports.contains (Imp.dot (bs "p")) && out.imports.contains (Imp.dot (bs "q"))
+    | .error _ => false) = true := by decide
+
+/-- the hypothesis "keys are distinct" (a Go map) cannot be dropped: with a repeated key the first entry
+    in sort order wins, and `sort.Stable` keeps the input order of equal keys -/
+example : generate Cfg.current witnessRefs ⟨[bs "Old"], [(bs "X", bs "p"), (bs "X", bs "q"), (bs "Y", bs "r")]⟩
+    ≠ generate Cfg.current witnessRefs ⟨[bs "Old"], [(bs "X", bs "q"), (bs "X", bs "p"), (bs "Y", bs "r")]⟩ := by decide
+
+/-! ### never panics -/
+
+/-- the only way the model reaches `Err.panic`: the ignore-list repair (proposed_fixes/03) is missing and
+    an IGNORED — hence unchecked, but still emitted — vendor attribute of a templated type has an empty OID
+    (`attr.OID[0]` in the vendor templates) -/
+theorem panic_only_if (cfg : Cfg) (d : Dictionary) (o : Options) (h : generate cfg d o = .error .panic) :
+    cfg.dropIgnoredVendorAttrs = false ∧
+    ∃ v ∈ d.vendors, ∃ a ∈ v.attributes, a.name ∈ o.ignore ∧ a.oid = [] ∧ hasTemplate a.typ = true :=
+  Gen.generate_panic cfg d o h
+
+/-- the repaired generator never panics: every attribute it emits went through the validity block, whose
+    first test is `len(attr.OID) != 1` -/
+theorem repaired_never_panics (d : Dictionary) (o : Options) : generate Cfg.repaired d o ≠ .error .panic :=
+  fun h => absurd (panic_only_if _ d o h).1 (by decide)
+
+theorem current_never_panics (d : Dictionary) (o : Options) : generate Cfg.current d o ≠ .error .panic :=
+  repaired_never_panics d o
+
+/-- `VENDOR V 9` with an `ATTRIBUTE X <no OID> string` inside, generated with `-ignore X` -/
+def witnessPanic : Dictionary :=
+  { vendors := [{ name := bs "V", number := 9, attributes := [{ name := bs "X", oid := [], typ := .string }] }] }
+
+/-- the code as found panics on it (the repair matters) … -/
+theorem asIs_panics : generate Cfg.asIs witnessPanic ⟨[bs "X"], []⟩ = .error .panic := by decide
+
+/-- … the repaired code emits the vendor without the ignored attribute -/
+example : (generate Cfg.repaired witnessPanic ⟨[bs "X"], []⟩).toOption.isSome = true := by decide
+
+/-- as found, there is no panic unless an ignored vendor attribute has an empty OID -/
+theorem asIs_never_panics_partial (d : Dictionary) (o : Options)
+    (h : ∀ v ∈ d.vendors, ∀ a ∈ v.attributes, a.name ∈ o.ignore → a.oid ≠ []) :
+    generate Cfg.asIs d o ≠ .error .panic := by
+  intro hp
+  obtain ⟨_, v, hv, a, ha, hi, he, _⟩ := panic_only_if _ d o hp
+  exact h v hv a ha hi he
+
+example : ∀ v ∈ ({ vendors := [{ name := bs "V", number := 9, attributes := [{ name := bs "X", oid := [255, 1], typ := .octets }] }] } : Dictionary).vendors,
+    ∀ a ∈ v.attributes, a.name ∈ [bs "X"] → a.oid ≠ [] := by decide
 
 /-! ### identifier normalisation (ASCII) -/
 
@@ -98,6 +202,204 @@ theorem request_param_partial (vendor : Bool) (a : Attribute) (vals : List Value
 theorem request_param_repaired : request_param_full Cfg.repaired :=
   Gen.request_param_repaired'
 
+/-! ### the clauses of the API shape, one by one, over the output of an accepted dictionary
+
+`api_shape` above compares the template table `attrDecls` with the specification table `helperRoles`.  The
+statements below do not go through `helperRoles`: each spells its list out, and each is about the OUTPUT of
+`generate` for an arbitrary accepted dictionary `d` and an arbitrary attribute `a` declared by `d` (at top
+level or inside a VENDOR block — `AttrIn d vendor a vs`, `vs` being the VALUE lines of that scope) that is
+not on the ignore list.  `declsOf out vendor a` is everything the output declares for `a`, in order. -/
+
+/-- (i) text and octets: typed and `String` variants of Add/Get/Gets/Lookup/Set, and Del
+    (top-level attributes additionally have their `_Type` constant) -/
+theorem helpers_text {d : Dictionary} {o : Options} {out : Output} {vendor : Bool} {a : Attribute} {vs : List Value}
+    (hacc : generate Cfg.repaired d o = .ok out) (hin : AttrIn d vendor a vs) (hi : a.name ∉ o.ignore)
+    (hk : a.typ = .string ∨ a.typ = .octets) (hc : concatenated a = false) :
+    (declsOf out vendor a).map (·.role) =
+      (if vendor then [] else [Role.typeConst])
+      ++ [.add, .addString, .get, .getString, .gets, .getStrings, .lookup, .lookupString, .set, .setString, .del] :=
+  Gen.helpers_text' hacc hin hi hk hc
+
+/-- (ii) concat attributes (top level only: inside a VENDOR block the flag is refused): only
+    Get/Lookup/Set with their `String` variants, and Del — no Add, no Gets -/
+theorem helpers_concat {d : Dictionary} {o : Options} {out : Output} {vendor : Bool} {a : Attribute} {vs : List Value}
+    (hacc : generate Cfg.repaired d o = .ok out) (hin : AttrIn d vendor a vs) (hi : a.name ∉ o.ignore)
+    (hk : a.typ = .string ∨ a.typ = .octets) (hc : concatenated a = true) :
+    vendor = false ∧
+    (declsOf out vendor a).map (·.role) = [.typeConst, .get, .getString, .lookup, .lookupString, .set, .setString, .del] :=
+  Gen.helpers_concat' hacc hin hi hk hc
+
+/-- (iii) integer kinds (`short`, `integer`, `integer64`; `n` = 16, 32, 64): the value type `uint<n>`, one
+    named constant of that type per VALUE number (`attrValues ∘ sortValues`, characterised by `value_constants`),
+    the `_Strings` map, the `String()` method, Add/Get/Gets/Lookup/Set/Del over the value type.  The constants'
+    identifiers are pairwise distinct and their numbers fit the type. -/
+theorem helpers_integer {d : Dictionary} {o : Options} {out : Output} {vendor : Bool} {a : Attribute} {vs : List Value}
+    (hacc : generate Cfg.repaired d o = .ok out) (hin : AttrIn d vendor a vs) (hi : a.name ∉ o.ignore)
+    (n : Nat) (hk : intBits a.typ = some n) :
+    (declsOf out vendor a).map (fun dc => (dc.role, dc.name, dc.results)) =
+      (if vendor then [] else [(Role.typeConst, identifier a.name ++ bs "_Type", [Ty.radiusType])])
+      ++ [(Role.valueType, identifier a.name, [if n = 64 then Ty.u64 else if n = 16 then Ty.u16 else Ty.u32])]
+      ++ (attrValues a.name (sortValues vs)).map (fun v =>
+            (Role.valueConst, identifier a.name ++ bs "_Value_" ++ identifier v.name, [Ty.named (identifier a.name)]))
+      ++ [(Role.strings, identifier a.name ++ bs "_Strings", [Ty.mapStr (identifier a.name)]),
+          (Role.stringer, identifier a.name ++ bs ".String", [Ty.str]),
+          (Role.add, identifier a.name ++ bs "_Add", [Ty.error]),
+          (Role.get, identifier a.name ++ bs "_Get", tg a .byte ++ [Ty.named (identifier a.name)]),
+          (Role.gets, identifier a.name ++ bs "_Gets", tg a .bytes ++ [Ty.slice (Ty.named (identifier a.name)), Ty.error]),
+          (Role.lookup, identifier a.name ++ bs "_Lookup", tg a .byte ++ [Ty.named (identifier a.name), Ty.error]),
+          (Role.set, identifier a.name ++ bs "_Set", [Ty.error]),
+          (Role.del, identifier a.name ++ bs "_Del", [])]
+    ∧ ((attrValues a.name (sortValues vs)).map (fun v => identifier v.name)).Nodup
+    ∧ (∀ v ∈ attrValues a.name (sortValues vs), v.number < 2 ^ n) :=
+  Gen.helpers_integer' hacc hin hi n hk
+
+/-- which VALUEs name a constant: VALUE lines of that attribute (and scope), with pairwise distinct numbers,
+    in ascending order, one for every number that occurs (which one: `value_constants_last`) -/
+theorem value_constants (attrName : Bytes) (vs : List Value) :
+    (attrValues attrName (sortValues vs)).Pairwise (fun x y => x.number < y.number)
+    ∧ (∀ w ∈ attrValues attrName (sortValues vs), w ∈ vs ∧ w.attrName = attrName)
+    ∧ (∀ v ∈ vs, v.attrName = attrName → ∃ w ∈ attrValues attrName (sortValues vs), w.number = v.number) :=
+  Gen.attrValues_spec' attrName vs
+
+/-- of the VALUE lines of one attribute that carry the same number, the one declared LAST names the constant
+    (`sort.Stable` keeps their order, the loop of `attributeValues` overwrites) -/
+theorem value_constants_last (attrName : Bytes) (vs : List Value) :
+    ∀ w ∈ attrValues attrName (sortValues vs),
+      (vs.filter (fun v => v.attrName == attrName && v.number == w.number)).getLast? = some w :=
+  Gen.attrValues_last' attrName vs
+
+example : attrValues (bs "Service-Type") (sortValues [⟨bs "Service-Type", bs "Login-User", 1⟩, ⟨bs "Service-Type", bs "Framed-User", 2⟩,
+    ⟨bs "Service-Type", bs "Login", 1⟩, ⟨bs "Ext-Attr", bs "On", 1⟩]) = [⟨bs "Service-Type", bs "Login", 1⟩, ⟨bs "Service-Type", bs "Framed-User", 2⟩] := by decide
+
+/-- (iv) the other kinds with a template (`ipaddr`, `ipv6addr`, `ipv6prefix`, `ifid`, `date`, `byte`):
+    typed Add/Get/Gets/Lookup/Set/Del and nothing else -/
+theorem helpers_other {d : Dictionary} {o : Options} {out : Output} {vendor : Bool} {a : Attribute} {vs : List Value}
+    (hacc : generate Cfg.repaired d o = .ok out) (hin : AttrIn d vendor a vs) (hi : a.name ∉ o.ignore)
+    (hk : a.typ = .ipaddr ∨ a.typ = .ipv6addr ∨ a.typ = .ipv6prefix ∨ a.typ = .ifid ∨ a.typ = .date ∨ a.typ = .byte) :
+    (declsOf out vendor a).map (·.role) =
+      (if vendor then [] else [Role.typeConst]) ++ [.add, .get, .gets, .lookup, .set, .del] :=
+  Gen.helpers_simple' hacc hin hi hk
+
+/-- (v) kinds without a template: the only one an accepted dictionary can contain is a top-level `vsa`,
+    and it gets its `_Type` constant and nothing else -/
+theorem helpers_none {d : Dictionary} {o : Options} {out : Output} {vendor : Bool} {a : Attribute} {vs : List Value}
+    (hacc : generate Cfg.repaired d o = .ok out) (hin : AttrIn d vendor a vs) (hi : a.name ∉ o.ignore)
+    (hk : hasTemplate a.typ = false) :
+    vendor = false ∧ a.typ = .vsa ∧ declsOf out vendor a = [typeConstDecl a] :=
+  Gen.helpers_none' hacc hin hi hk
+
+/-- the five clauses are exhaustive -/
+theorem helpers_cases (a : Attribute) :
+    ((a.typ = .string ∨ a.typ = .octets) ∧ (concatenated a = false ∨ concatenated a = true))
+    ∨ (∃ n, intBits a.typ = some n)
+    ∨ (a.typ = .ipaddr ∨ a.typ = .ipv6addr ∨ a.typ = .ipv6prefix ∨ a.typ = .ifid ∨ a.typ = .date ∨ a.typ = .byte)
+    ∨ hasTemplate a.typ = false := by
+  obtain ⟨name, oid, typ, size, enc, tag, cc⟩ := a
+  cases typ <;> simp [intBits, hasTemplate, stringy, isIPKind, isIntKind]
+  all_goals (cases concatenated _ <;> simp)
+
+/-- names and sorts of declaration: each declaration of `a` is the sort of declaration its role says and is
+    named `<Identifier><suffix of the role>`, a constant `<Identifier>_Value_<identifier of the VALUE>` -/
+theorem helper_names {d : Dictionary} {o : Options} {out : Output} {vendor : Bool} {a : Attribute} {vs : List Value}
+    (hacc : generate Cfg.repaired d o = .ok out) (hin : AttrIn d vendor a vs) (hi : a.name ∉ o.ignore) :
+    ∀ dc ∈ declsOf out vendor a, dc.kind = dc.role.kind ∧
+      ((dc.role ≠ .valueConst ∧ dc.name = identifier a.name ++ bs dc.role.suffix) ∨
+       (dc.role = .valueConst ∧ ∃ v ∈ attrValues a.name (sortValues vs),
+          dc.name = identifier a.name ++ bs "_Value_" ++ identifier v.name)) :=
+  Gen.helper_names' hacc hin hi
+
+/-- `declsOf` is not a second table: it is the union of the output's sections of that origin -/
+theorem mem_declsOf {out : Output} {vendor : Bool} {a : Attribute} {dc : Decl} :
+    dc ∈ declsOf out vendor a ↔ ∃ s ∈ out.sections, s.1 = .attr vendor a ∧ dc ∈ s.2 :=
+  Gen.mem_declsOf
+
+/-- a tag parameter exactly when the attribute is tagged: over EVERY declaration emitted for ANY attribute
+    (top-level or vendor) of an accepted dictionary, a declaration carries a tag iff the attribute is tagged
+    and the declaration is one of Add/Set/Get/Gets/Lookup (or a `String` variant); Del, the `_Type` constant,
+    the value type, its constants, `_Strings` and `String()` never do -/
+theorem tag_param {d : Dictionary} {o : Options} {out : Output} (hacc : generate Cfg.repaired d o = .ok out) :
+    ∀ s ∈ out.sections, ∀ (vendor : Bool) (a : Attribute), s.1 = .attr vendor a → ∀ dc ∈ s.2,
+      (hasTagParam dc = true ↔ (tagged a = true ∧ (dc.role.isWriter || dc.role.isReader) = true)) :=
+  Gen.tag_param_sections hacc
+
+/-- a request-packet parameter exactly when the attribute is salt-encrypted (`encrypt=2`): over every
+    declaration emitted for any attribute of an accepted dictionary, the parameters are `(p, q *radius.Packet)`
+    iff the attribute is salt-encrypted and the declaration is one of Get/Gets/Lookup (or a `String` variant) -/
+theorem request_param {d : Dictionary} {o : Options} {out : Output} (hacc : generate Cfg.repaired d o = .ok out) :
+    ∀ s ∈ out.sections, ∀ (vendor : Bool) (a : Attribute), s.1 = .attr vendor a → ∀ dc ∈ s.2,
+      (hasRequestParam dc = true ↔ (salted a = true ∧ dc.role.isReader = true)) :=
+  Gen.request_param_sections hacc
+
+/-- the remaining sections (vendor identifiers, the private vendor helpers, external VALUE constants and
+    their `init`) carry neither -/
+theorem other_sections_no_param {cfg : Cfg} {d : Dictionary} {o : Options} {out : Output} (hacc : generate cfg d o = .ok out) :
+    ∀ s ∈ out.sections, (∀ vendor a, s.1 ≠ .attr vendor a) → ∀ dc ∈ s.2, hasTagParam dc = false ∧ hasRequestParam dc = false :=
+  Gen.other_sections_no_param hacc
+
+/-- `ATTRIBUTE X 1 date encrypt=2` -/
+def witnessDateSalt : Dictionary := { attributes := [{ name := bs "X", oid := [1], typ := .date, encrypt := some 2 }] }
+
+/-- as found (#18) the request-packet clause fails on the OUTPUT too: `date encrypt=2` is accepted and its
+    `_Get` takes one packet -/
+example : (match generate Cfg.asIs witnessDateSalt ⟨[], []⟩ with
+    | .ok out => out.decls.any (fun dc => dc.role == .get && !hasRequestParam dc)
+    | .error _ => false) = true := by decide
+
+/-! #### a dictionary that exercises every clause (non-vacuity) -/
+
+def wText : Attribute := { name := bs "User-Name", oid := [1], typ := .string }
+def wConcat : Attribute := { name := bs "EAP-Message", oid := [79], typ := .octets, isConcat := some true }
+def wInt : Attribute := { name := bs "Service-Type", oid := [6], typ := .integer }
+def wIP : Attribute := { name := bs "Framed-IP-Address", oid := [8], typ := .ipaddr }
+def wVSA : Attribute := { name := bs "Vendor-Specific", oid := [26], typ := .vsa }
+def wTunnel : Attribute := { name := bs "Tunnel-Password", oid := [69], typ := .string, encrypt := some 2, hasTag := some true }
+def wOld : Attribute := { name := bs "Old", oid := [99], typ := .string }
+def wVInt : Attribute := { name := bs "Acme-Level", oid := [1], typ := .short }
+def wVText : Attribute := { name := bs "Acme-Note", oid := [2], typ := .octets, hasTag := some true }
+def wVDate : Attribute := { name := bs "Acme-When", oid := [3], typ := .date }
+def wVendor : Vendor :=
+  { name := bs "Acme", number := 9, attributes := [wVDate, wVInt, wVText],
+    values := [⟨bs "Acme-Level", bs "High", 2⟩, ⟨bs "Acme-Level", bs "Low", 1⟩] }
+
+/-- top-level attributes of every kind, one of them ignored, VALUEs with a repeated number, a VALUE of an
+    external attribute, a vendor with attributes of three kinds -/
+def witnessShape : Dictionary :=
+  { attributes := [wTunnel, wText, wConcat, wInt, wIP, wVSA, wOld],
+    values := [⟨bs "Service-Type", bs "Login-User", 1⟩, ⟨bs "Service-Type", bs "Framed-User", 2⟩,
+               ⟨bs "Service-Type", bs "Login", 1⟩, ⟨bs "Ext-Attr", bs "On", 1⟩],
+    vendors := [wVendor] }
+def witnessOpts : Options := ⟨[bs "Old"], [(bs "Ext-Attr", bs "example.com/ext")]⟩
+
+def witnessOut : Output := match generate Cfg.repaired witnessShape witnessOpts with | .ok out => out | .error _ => ⟨[], []⟩
+
+theorem witness_ok : generate Cfg.repaired witnessShape witnessOpts = .ok witnessOut := by decide
+
+example : (declsOf witnessOut false wText).map (·.role) =
+    [.typeConst, .add, .addString, .get, .getString, .gets, .getStrings, .lookup, .lookupString, .set, .setString, .del] :=
+  helpers_text witness_ok (Or.inl ⟨rfl, by decide, rfl⟩) (by decide) (Or.inl rfl) rfl
+example : (declsOf witnessOut true wVText).map (·.role) =
+    [.add, .addString, .get, .getString, .gets, .getStrings, .lookup, .lookupString, .set, .setString, .del] :=
+  helpers_text witness_ok (Or.inr ⟨rfl, wVendor, by decide, by decide, rfl⟩) (by decide) (Or.inr rfl) rfl
+example : (declsOf witnessOut false wConcat).map (·.role) = [.typeConst, .get, .getString, .lookup, .lookupString, .set, .setString, .del] :=
+  (helpers_concat witness_ok (Or.inl ⟨rfl, by decide, rfl⟩) (by decide) (Or.inr rfl) rfl).2
+example : ((declsOf witnessOut false wInt).filter (·.role == .valueConst)).map (·.name) =
+    [bs "ServiceType_Value_Login", bs "ServiceType_Value_FramedUser"] := by decide
+example := (helpers_integer (vs := witnessShape.values) witness_ok (Or.inl ⟨rfl, by decide, rfl⟩) (by decide : wInt.name ∉ witnessOpts.ignore) 32 rfl).1
+example := (helpers_integer (vs := wVendor.values) witness_ok (Or.inr ⟨rfl, wVendor, by decide, by decide, rfl⟩) (by decide : wVInt.name ∉ witnessOpts.ignore) 16 rfl).1
+example : (declsOf witnessOut false wIP).map (·.role) = [.typeConst, .add, .get, .gets, .lookup, .set, .del] :=
+  helpers_other witness_ok (Or.inl ⟨rfl, by decide, rfl⟩) (by decide) (Or.inl rfl)
+example : (declsOf witnessOut true wVDate).map (·.role) = [.add, .get, .gets, .lookup, .set, .del] :=
+  helpers_other witness_ok (Or.inr ⟨rfl, wVendor, by decide, by decide, rfl⟩) (by decide) (by decide)
+example : declsOf witnessOut false wVSA = [typeConstDecl wVSA] :=
+  (helpers_none witness_ok (Or.inl ⟨rfl, by decide, rfl⟩) (by decide) rfl).2.2
+example := helper_names (vs := witnessShape.values) witness_ok (Or.inl ⟨rfl, by decide, rfl⟩) (by decide : wInt.name ∉ witnessOpts.ignore)
+/-- the output has tagged and untagged, salted and unsalted helpers, of top-level and of vendor attributes -/
+example : witnessOut.sections.any (fun s => s.1 == .attr false wTunnel && s.2.any hasTagParam && s.2.any hasRequestParam) = true
+    ∧ witnessOut.sections.any (fun s => s.1 == .attr true wVText && s.2.any hasTagParam && !s.2.any hasRequestParam) = true
+    ∧ witnessOut.sections.any (fun s => s.1 == .attr false wText && !s.2.any hasTagParam) = true := by decide
+example := tag_param witness_ok
+example := request_param witness_ok
+
 /-! ### ignored_emit_nothing -/
 
 /-- no group of declarations originates from an ATTRIBUTE on the ignore list, and no constant from a
@@ -173,6 +475,29 @@ theorem imports_exact_partial (d : Dictionary) (o : Options) (out : Output)
 theorem imports_exact_repaired : imports_exact_full Cfg.repaired :=
   Gen.imports_exact_repaired'
 
+/-- `imports_exact_*` is an equivalence (every import the sections need is imported AND nothing else is), but
+    it leaves the dot imports aside.  Those are exact too, for every `cfg`: the package of a `-ref` option
+    is dot-imported exactly when the output declares at least one constant of that external attribute
+    (an unused dot import would not compile).  `ExternalAttributes` is a Go map: keys are distinct. -/
+theorem dot_imports_exact (cfg : Cfg) (d : Dictionary) (o : Options) (out : Output) (h : generate cfg d o = .ok out)
+    (hd : (o.refs.map (·.1)).Nodup) (p : Bytes) :
+    Imp.dot p ∈ out.imports ↔
+      ∃ r ∈ o.refs, r.2 = p ∧ ∃ s ∈ out.sections, s.1 = .ext r.1 ∧ ∃ dc ∈ s.2, dc.role = .extValue :=
+  Gen.dot_imports_exact' h hd p
+
+/-- no package is imported twice -/
+theorem imports_nodup (cfg : Cfg) (d : Dictionary) (o : Options) (out : Output) (h : generate cfg d o = .ok out) :
+    out.imports.Nodup :=
+  Gen.imports_nodup' h
+
+example : (witnessOpts.refs.map (·.1)).Nodup := by decide
+example : Imp.dot (bs "example.com/ext") ∈ witnessOut.imports := by decide
+example := (dot_imports_exact _ _ _ _ witness_ok (by decide) (bs "example.com/ext")).1 (by decide)
+/-- a `-ref` option none of whose VALUEs occurs is not imported -/
+example : (match generate Cfg.repaired witnessShape ⟨[bs "Old"], [(bs "Ext-Attr", bs "example.com/ext"), (bs "Unused", bs "example.com/unused")]⟩ with
+    | .ok out => !out.imports.contains (Imp.dot (bs "example.com/unused")) && out.imports.contains (Imp.dot (bs "example.com/ext"))
+    | .error _ => false) = true := by decide
+
 /-! ### idents_unique: no two declarations share a name -/
 
 /-- the `-ref` options are usable: every external attribute name normalises to an exported identifier,
@@ -231,6 +556,105 @@ theorem idents_unique_partial (d : Dictionary) (o : Options) (out : Output)
 
 theorem idents_unique_repaired : idents_unique_full Cfg.repaired :=
   fun d o out h hw => Gen.idents_unique_repaired' d o out h hw.1 hw.2.1 hw.2.2
+
+/-- what `declaredNames` (hence `idents_unique_*`) covers: the name of EVERY declaration of the output —
+    `_Type` constants, vendor identifiers, the private vendor helper functions, value types, value constants,
+    `_Strings` maps, `String` methods, helper functions, constants of external attributes — with the one
+    exception Go allows to repeat, the `init` functions -/
+theorem declaredNames_covers (out : Output) :
+    ∀ dc ∈ out.decls, dc.role ≠ .extInit → dc.name ∈ declaredNames out := by
+  intro dc hdc hr
+  exact List.mem_map.2 ⟨dc, List.mem_filter.2 ⟨hdc, by simpa using hr⟩, rfl⟩
+
+/-- … and the exception is exactly the `init` functions -/
+theorem extInit_is_init (cfg : Cfg) (d : Dictionary) (o : Options) (out : Output) (h : generate cfg d o = .ok out) :
+    ∀ dc ∈ out.decls, dc.role = .extInit → dc = ⟨.func, .extInit, bs "init", [], []⟩ :=
+  Gen.extInit_is_init' h
+
+/-! ### names_wellformed: every declared name is a Go identifier -/
+
+/-- every declared name of an accepted dictionary is a well-formed Go identifier (`goIdent`: non-empty,
+    ASCII letters, digits and `_`, not starting with a digit — in particular `lexesAsIdent`), the method's
+    name being `<value type>.String`.  For the constants of external attributes this needs the name of the
+    `-ref` option not to normalise to something that starts with a digit (part of `extWellFormed`). -/
+theorem names_wellformed (d : Dictionary) (o : Options) (out : Output) (h : generate Cfg.repaired d o = .ok out)
+    (hr : ∀ r ∈ o.refs, lexesAsIdent (identifier r.1) = true) :
+    ∀ dc ∈ out.decls, declNameOK dc :=
+  Gen.names_ok' h hr
+
+theorem goIdent_lexes (n : Bytes) (h : goIdent n = true) : lexesAsIdent n = true := by
+  simp only [goIdent, Bool.and_eq_true] at h
+  exact h.1.2
+
+example : ∀ r ∈ witnessOpts.refs, lexesAsIdent (identifier r.1) = true := by decide
+example := names_wellformed _ _ _ witness_ok (by decide)
+
+/-- the hypothesis cannot be dropped — a GAP OF THE MODEL, not of the Go code: for `-ref -1=…` with a
+    `VALUE -1 x 1` the model accepts and lists a constant named `1_Value_X`, whereas Go emits that text and
+    go/format refuses it (Generate returns an error; observed on the working tree).  The format gate of the
+    model covers the dictionary's own attributes only. -/
+example : (match generate Cfg.repaired { values := [⟨bs "-1", bs "x", 1⟩] } ⟨[], [(bs "-1", bs "example.com/q")]⟩ with
+    | .ok out => out.decls.any (fun dc => dc.name == bs "1_Value_X" && !goIdent dc.name)
+    | .error _ => false) = true := by decide
+
+/-! ### exported_names: what is exported and what is private -/
+
+/-- Everything declared for an ATTRIBUTE of an accepted dictionary (its `_Type` constant, helper functions,
+    value type, named constants, `_Strings`, `String`) starts with the attribute's identifier, which is an
+    upper-case ASCII letter followed by letters and digits: it is exported.  Everything declared for a VENDOR
+    (`_<Identifier>_VendorID` and the six helpers `_<Identifier>_{New,Add,Gets,Lookup,Set,Del}Vendor`)
+    starts with `_`: it is private to the package.  The section of an external attribute holds `init` and
+    constants `<Identifier>_Value_…` (exported when the `-ref` name has an exported identifier). -/
+theorem exported_names (d : Dictionary) (o : Options) (out : Output) (h : generate Cfg.repaired d o = .ok out) :
+    ∀ s ∈ out.sections, ∀ dc ∈ s.2,
+      match s.1 with
+      | .attr _ a => exportedIdent dc.name = true ∧ identifier a.name <+: dc.name
+      | .vendor n => dc.name.head? = some 95 ∧ (bs "_" ++ identifier n) <+: dc.name
+      | .ext n => dc.name = bs "init" ∨ (identifier n ++ bs "_Value_") <+: dc.name :=
+  Gen.exported_names' h
+
+/-- the part about attributes alone, as a property of `cfg` -/
+def exported_names_full (cfg : Cfg) : Prop :=
+  ∀ (d : Dictionary) (o : Options) (out : Output), generate cfg d o = .ok out →
+    ∀ s ∈ out.sections, ∀ vendor a, s.1 = .attr vendor a → ∀ dc ∈ s.2, exportedIdent dc.name = true
+
+theorem exported_names_repaired : exported_names_full Cfg.repaired := by
+  intro d o out h s hs vendor a ho dc hdc
+  have := exported_names d o out h s hs dc hdc
+  rw [ho] at this
+  exact this.1
+
+/-- `ATTRIBUTE -- 1 string`: the name normalises to the empty identifier -/
+def witnessUnexported : Dictionary := { attributes := [{ name := bs "--", oid := [1], typ := .string }] }
+
+/-- as found, `--` is accepted and its helpers are called `_Type`, `_Add`, …: not exported -/
+theorem exported_names_counterexample : ¬ exported_names_full Cfg.asIs := by
+  intro h
+  have hd : (match generate Cfg.asIs witnessUnexported ⟨[], []⟩ with
+      | .ok out => out.sections.any (fun s => (match s.1 with | .attr _ _ => true | _ => false) && s.2.any (fun dc => !exportedIdent dc.name))
+      | .error _ => false) = true := by decide
+  cases hg : generate Cfg.asIs witnessUnexported ⟨[], []⟩ with
+  | error e => rw [hg] at hd; simp at hd
+  | ok out =>
+    rw [hg] at hd
+    obtain ⟨s, hs, hbad⟩ := List.any_eq_true.mp hd
+    simp only [Bool.and_eq_true] at hbad
+    obtain ⟨ho, hbad⟩ := hbad
+    obtain ⟨dc, hdc, hne⟩ := List.any_eq_true.mp hbad
+    cases hs1 : s.1 with
+    | attr v a =>
+      have := h _ _ out hg s hs v a hs1 dc hdc
+      simp [this] at hne
+    | vendor n => rw [hs1] at ho; simp at ho
+    | ext n => rw [hs1] at ho; simp at ho
+
+/-- as found, the clause holds for every attribute whose name has an exported identifier -/
+theorem exported_names_partial (d : Dictionary) (o : Options) (out : Output) (h : generate Cfg.asIs d o = .ok out) :
+    ∀ s ∈ out.sections, ∀ vendor a, s.1 = .attr vendor a → exportedIdent (identifier a.name) = true →
+      ∀ dc ∈ s.2, exportedIdent dc.name = true :=
+  Gen.exported_names_partial' h
+
+example := exported_names _ _ _ witness_ok
 
 /-! ### perm_invariant: the declaration order of attributes and vendors does not matter -/
 
